@@ -108,6 +108,10 @@ type Scenario struct {
 	Prefixes func(tier string) [][]uint32
 	// PointInject: the first generation draw is an injection step; the worker enumerates it over a base run.
 	PointInject bool
+	// PairPrefix, when set, gives the forced generation prefix that injects action kinds k1,k2 before steps i<j;
+	// the thorough tier enumerates all pairs on small base runs.
+	PairPrefix func(i, j int64, k1, k2 int) []uint32
+	PairKinds  [][2]int
 	// Weight among the property's scenarios for random runs (default 1).
 	Weight int
 	// Stubs / real components for the evidence file.
